@@ -390,6 +390,29 @@ func (g *Gen) pattern() []Event {
 			}
 		}
 	case "rewards":
+		if hasPos && g.r.Intn(5) == 0 {
+			// rewards are pending for a validator when it is jailed without a slash and leaves the bonded set; while it is out, its
+			// positions claim, new stake arrives, and a redelegation out of it is slashed; then it comes back (C13 C12)
+			ov := g.otherVal(v)
+			evs := endOfBlock()
+			evs = append(evs, block(1, Event{Ev: "Accrue", V: v, Coins: []Amt{{BondDenom, pick(g.r, []string{"1000000", "123456789"})}}}, Event{Ev: "Jail", V: v})...)
+			evs = append(evs, block(1, Event{Ev: "Claim", D: d, V: v, A: a}, Event{Ev: "Delegate", D: g.dname(), V: v, A: a, X: g.amount()},
+				Event{Ev: "Redelegate", D: d, Src: v, Dst: ov, A: a, X: frac(bal, 1, 4)})...)
+			evs = append(evs, block(1, Event{Ev: "Unjail", V: v})...)
+			evs = append(evs, block(1, Event{Ev: "Accrue", V: v, Coins: []Amt{{BondDenom, "1000"}}}, Event{Ev: "Claim", D: d, V: v, A: a}, Event{Ev: "Claim", D: d, V: ov, A: a})...)
+			return evs
+		}
+		if !g.clean && hasPos && g.r.Intn(4) == 0 {
+			// the source of a pending redelegation is slashed while rewards are pending for the destination validator: the callback
+			// settles the destination position first; its next claim pays nothing more (C12 C13)
+			ov := g.otherVal(v)
+			evs := []Event{{Ev: "Redelegate", D: d, Src: v, Dst: ov, A: a, X: frac(bal, 1, 2)}}
+			evs = append(evs, endOfBlock()...)
+			evs = append(evs, block(1)...)
+			evs = append(evs, block(1, Event{Ev: "Accrue", V: ov, Coins: []Amt{{BondDenom, pick(g.r, []string{"1000000", "123456789"})}}},
+				Event{Ev: "SlashHook", V: v, F: pick(g.r, []string{"10000000000000000", "100000000000000"})}, Event{Ev: "Claim", D: d, V: ov, A: a})...)
+			return evs
+		}
 		if g.big && g.r.Intn(3) == 0 {
 			// a validator whose share of every asset drops to a few 10^-18 (whales arrive elsewhere in the block in which it
 			// still has rewards pending through the module's stake): with weights below one its staked reward weights
